@@ -380,9 +380,9 @@ PROBE = [1, 2, 3, 110, 121, 200]
 
 def alphabet(clean, level):
     """Calls offered at every position of the exhaustive part.
-    clean = references `m`/`n`/`f` (never a coordinate component / an id in use where a new one is
-    expected); not clean = the abusive calls of F20-F22 (repaired: refused, or replaced and announced);
-    level 0 = core, 1 = wider."""
+    clean = references `m`/`n`/`f`/`x` (never a coordinate component / an id in use where a new one is
+    expected; `x` = a ComponentID made for the call); not clean = the abusive calls of F20-F22 (repaired:
+    refused, or replaced and announced); level 0 = core, 1 = wider."""
     if clean:
         A = [
             ["add", 1, "same"], ["add", 2, "same"], ["add", 1, "bump"],
@@ -693,5 +693,5 @@ PROP = Property(
     families=[Seq(), SeqX()],
     trusted_base=["CPython dict insertion order / object identity, the Hub delivering messages in broadcast order to a catch-all listener (delay_callbacks only postpones), IdentityCoordinates axis names"],
     assumptions=["the positional-argument resolution rules are the same in lean/Drivers/C17.lean and harness/props/c17.py (any difference shows as a model disagreement)"],
-    rule="histories of Data mutation calls: every 1- and 2-call continuation of 6 set-up prefixes over a 66-call alphabet (3-call continuations over the 27-call core alphabet in thorough) + seeded random histories of 3..12 calls in clean / mixed / abusive (coordinate ids removed, ids in use re-added or targeted by update_id: F20-F22) strata; non-trivial = at least two calls that announced something or raised",
+    rule="histories of Data mutation calls: every 1- and 2-call continuation of 8 set-up prefixes (incl. a 0-d dataset and a dataset with a removed / a re-assigned id) over a 92-call alphabet (second call from the 31-call core alphabet in quick; 3-call continuations over the core alphabet in thorough) + seeded random histories of 3..12 calls in clean / mixed / abusive (coordinate ids removed, ids in use re-added or targeted by update_id: F20-F22) strata; arguments include 0-d arrays, ComponentIDs made for the call, ids that are not (or no longer) components, components without an array, inputs and ids of derived components; non-trivial = at least two calls that announced something or raised",
 )
